@@ -87,6 +87,11 @@ fn transpile_command(path: &str) -> Result<Box<str>> {
 
     let new_path = Path::new(&path).with_extension("").with_extension("mmm");
 
+    // `.transpiled.mmm` names no program in front of the suffix: the binary would be written over the text it is read from
+    if new_path == Path::new(path) {
+        bail!("`{path}` has no name in front of `.transpiled.mmm`: the output would overwrite the source")
+    }
+
     let Some(new_path) = new_path.to_str() else {
         bail!("path is not valid unicode")
     };
